@@ -49,6 +49,10 @@ def zeroOrPositive (s : Str) : Res Nat :=
   | '0' :: _ :: _ => throw .relSyntax
   | _ => if s.length > maxStrDigits then throw .relSyntax else pure (digitsVal s)
 
+/-- the pointer text `_parse` goes on with: blank space is dropped around `#` and when nothing else follows the
+    numbers; otherwise it belongs to a reference token and stays -/
+def ptrChoice (s : Str) : Str := if strip s = [] ∨ strip s = ['#'] then strip s else s
+
 /-- `RelativeJSONPointer._parse` (with `uri_decode=False`). -/
 def parse (dec : EscDec) (unicodeEsc : Bool) (rel : Str) : Res Rel := do
   let rel := lstrip rel
@@ -62,7 +66,7 @@ def parse (dec : EscDec) (unicodeEsc : Bool) (rel : Str) : Res Rel := do
         let n ← zeroOrPositive idxS
         if n = 0 then throw .relSyntax
         else pure (if sign = '-' then -(n : Int) else (n : Int))
-    let ptrS := strip ptrS
+    let ptrS := ptrChoice ptrS
     if ptrS = ['#'] then pure ⟨origin, index, .hash⟩
     else do
       let ps ← Pointer.parse dec unicodeEsc ptrS
@@ -83,7 +87,9 @@ def intLike : Part → Option Int
       else some i
     | none => none
 
-/-- `RelativeJSONPointer.to(base)` followed by `JSONPointer.from_parts`. -/
+/-- `RelativeJSONPointer.to(base)` followed by `JSONPointer.from_parts(parts, unicode_escape=False,
+    uri_decode=False)`: the parts of the two parsed pointers are not decoded again (`dec` and `unicodeEsc`
+    are the options under which a base given as text is parsed, by the caller). -/
 def applyTo (dec : EscDec) (unicodeEsc : Bool) (r : Rel) (base : List Part) : Res (List Part) := do
   if r.origin > base.length then throw .relIndex
   let parts := if r.origin < 1 then base else base.take (base.length - r.origin)
@@ -104,7 +110,8 @@ def applyTo (dec : EscDec) (unicodeEsc : Bool) (r : Rel) (base : List Part) : Re
       match parts.getLast? with
       | none => throw .relIndex
       | some last => pure (parts.dropLast ++ [Part.key ('#' :: partStr last)])
-  Pointer.fromParts dec unicodeEsc parts
+  let _ := unicodeEsc
+  Pointer.fromParts dec false parts
 
 /-! ## Specification (draft-hha-relative-json-pointer, on reference tokens) -/
 
